@@ -309,8 +309,9 @@ def lossless_tests(nruns, seed):
     out = dict(runs=0, viol=[], samples=[], deep_state_touched_by_dump=0)
     for r in range(nruns):
         s = rng.randrange(10 ** 6)
-        kind = ["island-values", "island-agraph", "archipelago-values", "predictor-values", "predictor-values-slow", "predictor-values-slow",
-                "predictor-values-slow"][r % 7]
+        KINDS = ["island-values", "island-agraph", "archipelago-values", "predictor-values", "predictor-values-slow", "predictor-values-slow",
+                 "predictor-values-slow", "predictor-values-agefit"]
+        kind = KINDS[r % len(KINDS)]
         fam = "agraph" if "agraph" in kind else "values"
         isl = make_island(s, fam)
         if kind.startswith("archipelago"):
@@ -320,7 +321,21 @@ def lossless_tests(nruns, seed):
             from props.c13_fit import DistanceToAverage
             from bingo.evaluation.evaluation import Evaluation
             ea.evaluation = Evaluation(DistanceToAverage(np.linspace(0.1, 1, 60)))
-            if kind.endswith("slow"):
+            if kind.endswith("agefit"):
+                # a main algorithm whose survivors stay the same OBJECTS from one generation to the next (age-fitness keeps them,
+                # a tournament copies every winner): whatever the island remembers per object and not in its pickled state -
+                # memo tables, identity-keyed caches - is warm in the original and cold in the loaded optimizer
+                from bingo.evolutionary_algorithms.age_fitness import AgeFitnessEA
+                from bingo.chromosomes.multiple_values import SinglePointCrossover, SinglePointMutation, MultipleValueChromosomeGenerator
+                from props.c13_fit import rand_value
+                gen_ = MultipleValueChromosomeGenerator(rand_value, 10)
+                ea = AgeFitnessEA(Evaluation(DistanceToAverage(np.linspace(0.1, 1, 200) ** 3)), gen_, SinglePointCrossover(),
+                                  SinglePointMutation(rand_value), 0.4, 0.4, 20)
+                opt = FitnessPredictorIsland(ea, gen_, 20, hall_of_fame=HallOfFame(3), predictor_population_size=8,
+                                             trainer_population_size=4, predictor_size_ratio=0.1,
+                                             predictor_computation_ratio=0.9, trainer_update_frequency=2,
+                                             predictor_update_frequency=5)
+            elif kind.endswith("slow"):
                 # the predictor in use is refreshed rarely while the predictor island keeps evolving (a busy main population pays
                 # for it): a dump taken between two refreshes must not re-synchronise anything on load
                 from bingo.evolutionary_algorithms.mu_plus_lambda import MuPlusLambda
@@ -343,8 +358,10 @@ def lossless_tests(nruns, seed):
         g1, g2 = rng.randint(1, 4), rng.randint(1, 4)
         if kind.endswith("slow"):
             g1, g2 = rng.randint(3, 9), 6
+        if kind.endswith("agefit"):
+            g1, g2 = rng.randint(5, 9), 10
         # half of the runs are driven through evolve_until_convergence (its stagnation / best-fitness bookkeeping is state too)
-        conv = (r // 7) % 2 == 1
+        conv = (r // len(KINDS)) % 2 == 1
         if conv:
             opt.evolve_until_convergence(max_generations=g1 + 2, fitness_threshold=-1e300, convergence_check_frequency=1)
         else:
@@ -397,7 +414,7 @@ def lossless_tests(nruns, seed):
     # call from the same state (after the population was regenerated, so the age repeats) runs once in a directory that still
     # holds the first call's checkpoints and once in an empty one; every checkpoint must load to the same optimizer state
     out["rewrite_runs"] = 0
-    for r in range(max(2, nruns // 7)):
+    for r in range(max(2, nruns // 8)):
         s = rng.randrange(10 ** 6)
         opt = make_island(s, "values")
         d_old, d_new = os.path.join(work, "old%d" % r), os.path.join(work, "new%d" % r)
@@ -436,7 +453,7 @@ def check(rep, proof):
     forced = [(1, 2), (1, 1), (2, 2), (1, 3)]
     scenarios = [gen_scenario(rng, f) for f in forced] + [gen_scenario(rng) for _ in range(nsc - len(forced))]
     rc, res, out, wall = vlib.run_impl("c13", dict(scenarios=scenarios, max_points=18 if rep.tier == "quick" else 60,
-                                                   lossless_runs=21 if rep.tier == "quick" else 140, seed=rep.seed), timeout=3400)
+                                                   lossless_runs=24 if rep.tier == "quick" else 160, seed=rep.seed), timeout=3400)
     if res is None:
         rep.violation("implementation harness crashed", dict(relation="corr_C13_checkpoint", log=out[-3000:]), has_input=False)
         return
